@@ -63,7 +63,7 @@ def eval_case(kind, cfg, g, ranks):
 
 
 def plan(ctx):
-    out = [(sp, "K0") for sp in ("S2", "P2", "P3", "T3", "T4", "T5|V2", "D7b1", "D8b1", "PK")]
+    out = [(sp, "K0") for sp in ("S2", "S2F", "P2", "P3", "T3", "T4", "T5|V2", "D7b1", "D8b1", "PK")] + [("S2F", "K1")]
     for K in ("K1", "K2", "K3", "K4", "K6", "K7", "K8"):
         out += [("S2", K), ("T3", K)]
     out += [("S2", "KG1"), ("T3|V6", "KG1"), ("P3", "KG1"), ("P2z", "K0"), ("P2z", "K4")]  # gamma = 0 for some teams only: the mean steps must still cancel
@@ -74,7 +74,7 @@ def plan(ctx):
     return out
 
 
-PARTS = {"P2z": 2, "T3|V6": 2, "PK": 2, "T6|V2": 48, "T5|V2": 4, "D7b1": 4, "D8b1": 8, "S2": 4, "P2": 6, "P3": 8, "T3": 8, "T4": 24, "T5": 64, "T6": 256, "D7": 24, "D8": 64, "D8x8": 64}
+PARTS = {"S2F": 2, "P2z": 2, "T3|V6": 2, "PK": 2, "T6|V2": 48, "T5|V2": 4, "D7b1": 4, "D8b1": 8, "S2": 4, "P2": 6, "P3": 8, "T3": 8, "T4": 24, "T5": 64, "T6": 256, "D7": 24, "D8": 64, "D8x8": 64}
 
 
 def units(ctx):
